@@ -1426,4 +1426,81 @@ theorem good_preserved (s s' : Stack) (H W : Nat) (pages : List Page) (hg : s.Go
 example : ∃ pages : List Page, Stack.Good ⟨0, pages.length, 1, ⟨0, (5 : Nat), 0, (4 : Nat)⟩⟩ 4 5 pages :=
   ⟨[⟨1, 2, 2⟩, ⟨2, 3, 3⟩], good_init _ 4 5 (by omega) (by omega)⟩
 
+
+/-! ## `to_kymo`: timing of the lines; the flat tether; frames resolve to pages of the files -/
+
+/-- line time, exposure and start of the kymograph are those of the visible frames -/
+theorem kymo_times_refine (s : Stack) (pages : List Page) (raw : Int → List (List Int))
+    (x1 y1 x2 y2 w : Int) (k : Kymo) (hk : s.toKymo pages raw (some (x1, y1, x2, y2)) w = some (.ok k)) :
+    ∃ r, s.ranges pages false false = some r ∧ 2 ≤ r.length ∧
+      (∀ i (h : i + 1 < r.length), r[i + 1].1 - r[i].1 = k.lineTime) ∧ (∀ x ∈ r, x.2 - x.1 = k.exposure) ∧
+      r.head?.map (·.1) = some k.start ∧ ∀ img ∈ k.image, img.length = r.length := by
+  obtain ⟨r, r', hr, ht, _, _, _, _, _, himg⟩ := toKymo_inv s pages raw x1 y1 x2 y2 w k hk
+  obtain ⟨h2, hd, he, hs⟩ := (kymo_times_spec r _ _ _).mp ht
+  refine ⟨r, hr, h2, hd, he, hs, ?_⟩
+  intro img himg'
+  rw [himg] at himg'
+  unfold swapAxes at himg'
+  rw [List.mem_map] at himg'
+  obtain ⟨x, _, rfl⟩ := himg'
+  simp only [List.length_map]
+  -- number of ranges = number of frames
+  unfold Stack.ranges at hr
+  simp only [Bool.false_eq_true, if_false] at hr
+  split at hr
+  · cases hr
+  · rename_i hlen
+    injection hr with hr
+    rw [← hr, List.length_map]
+    omega
+
+/-- A tether that is horizontal and left-to-right already is the identity: the two chosen points are reported as they
+    were chosen and every channel is warped with the identity (pixel values untouched) — the situation of `to_kymo`. -/
+theorem flat_tether_is_identity (ox oy : ℝ) (p q : Pt ℝ) (hy : p.y = q.y) (hx : p.x < q.x) :
+    ((Tether.new ox oy none).withTether p q).endsProcessed = some (p, q) ∧
+      ∀ r : Pt ℝ, ((Tether.new ox oy none).withTether p q).land none r = ⟨r.x - ox, r.y - oy⟩ := by
+  obtain ⟨e, hedef⟩ : ∃ e : Pt ℝ × Pt ℝ, e = (⟨p.x + ox, p.y + oy⟩, ⟨q.x + ox, q.y + oy⟩) := ⟨_, rfl⟩
+  have he : ((Tether.new ox oy none).withTether p q).ends = some e := by rw [hedef]; rfl
+  have hdx : e.2.x - e.1.x = q.x - p.x := by rw [hedef]; ring
+  have hdy : e.2.y - e.1.y = 0 := by rw [hedef]; simp only; rw [hy]; ring
+  have hL : tLen e = q.x - p.x := by
+    unfold tLen
+    rw [hdx, hdy]
+    show Real.sqrt _ = _
+    rw [mul_zero, add_zero]
+    exact Real.sqrt_mul_self (by linarith)
+  have hpos : q.x - p.x ≠ 0 := by linarith
+  have hc : tCos e = 1 := by unfold tCos; rw [hdx, hL]; exact div_self hpos
+  have hs : tSin e = 0 := by unfold tSin; rw [hdy]; exact zero_div _
+  have hrot : ∀ r : Pt ℝ, rotate e r = r := by
+    intro r
+    cases r with
+    | mk rx ry =>
+      simp only [rotate, hc, hs]
+      congr 1 <;> ring
+  have hox : ((Tether.new ox oy none).withTether p q).offX = ox := rfl
+  have hoy : ((Tether.new ox oy none).withTether p q).offY = oy := rfl
+  constructor
+  · simp only [Tether.endsProcessed, he, Option.map_some, hrot, hox, hoy]
+    rw [hedef]
+    simp only
+    obtain ⟨px, py⟩ := p
+    obtain ⟨qx, qy⟩ := q
+    simp only
+    congr 2 <;> (congr 1 <;> ring)
+  · intro r
+    have := frameMatrix_apply _ e he none r
+    simp only [Tether.land, this, shownAt, hrot, hox, hoy]
+
+/-- every visible frame of a reachable stack resolves to a page of one of the files -/
+theorem visible_frames_resolve (s : Stack) (pages : List Page) (hp : s.Paged pages) (lens : List Nat)
+    (hl : (pages.length : Int) = (lens.map Int.ofNat).sum) (p : Int) (hpm : p ∈ s.frames) :
+    ∃ (f : Nat) (q : Int), getFrame lens p = some (f, q) ∧ f < lens.length ∧ 0 ≤ q ∧ q < (lens.getD f 0 : Nat) ∧
+      ((lens.take f).map Int.ofNat).sum + q = p := by
+  obtain ⟨h0, h1⟩ := hp p hpm
+  exact get_frame_refines lens p h0 (by omega)
+
+example : ((Tether.new (1 : ℝ) 2 none).withTether ⟨1, 1⟩ ⟨3, 1⟩).endsProcessed = some (⟨1, 1⟩, ⟨3, 1⟩) :=
+  (flat_tether_is_identity 1 2 ⟨1, 1⟩ ⟨3, 1⟩ rfl (by norm_num)).1
+
 end Verif.C07
